@@ -1,11 +1,13 @@
 import SvModel.Lemmas.OriginMap
 import SvModel.Lemmas.TileDefs
 import SvModel.Core.Pp
+import SvModel.Lemmas.Tree
 /-!
 # Theorems about the preprocessor walker model (`Core/Pp.lean`)
 
 1. `walk_tiled`: every successful `preprocess_str` / event loop / `preprocess_inner` returns a tiled output (C03).
-2. `walk_plain_tree`, `copyOut_chain`, `idOut_origin`: on a directive-free tree without trailing trivia after strings the event loop
+2. `walk_skip_subtree`: a subtree on the skip list (a dead conditional branch) has no effect whatever it contains (C04).
+3. `walk_plain_tree`, `copyOut_chain`, `idOut_origin`: on a directive-free tree without trailing trivia after strings the event loop
    copies every token verbatim, keeps the define table, and maps every output offset to the same offset of the file (C06).
 All by induction on fuel / on the forest; every input, file system, define table, flag value.
 -/
@@ -594,5 +596,86 @@ def plainTreeb (K : PpKinds) (ts : List Tree) : Bool :=
   match ts with
   | [.node kpp sds] => inert K (.node kpp sds) && sds.all (plainSDb K)
   | _ => false
+
+
+/-! ### skipped subtrees (C04: dead branches have no effect) -/
+
+
+def evNode : Event → Tree
+  | .enter x => x
+  | .leave x => x
+
+/-- while skipping, events whose node is not on the skip list change nothing -/
+theorem walk_skipping (C : Cfg) (inp : Input) (s path : Bytes) (ii sc : Bool) (rd id : Nat) (evs : List Event) :
+    ∀ (es : List Event) (fuel : Nat) (w : WState), w.skip = true → (∀ e ∈ es, w.skipNodes.contains (evNode e) = false) →
+      walk C (fuel + es.length) inp s path ii sc rd id (es ++ evs) w = walk C fuel inp s path ii sc rd id evs w := by
+  intro es
+  induction es with
+  | nil => intro fuel w _ _; rfl
+  | cons e es ih =>
+    intro fuel w hs hn
+    have he : w.skipNodes.contains (evNode e) = false := hn e (by simp)
+    have e1 : fuel + (e :: es).length = (fuel + es.length) + 1 := by simp [List.length_cons]; omega
+    rw [e1, List.cons_append]
+    conv => lhs; unfold walk
+    have hstep : skipStep w e = w := by
+      unfold skipStep; cases e <;> simp [evNode] at he <;> simp [he]
+    simp only [hstep, hs, if_true]
+    exact ih fuel w hs (fun e' he' => hn e' (by simp [he']))
+
+theorem evNode_mem_preL : ∀ (ts : List Tree) (e : Event), e ∈ eventsL ts → evNode e ∈ preL ts := by
+  intro ts
+  -- mutual structural fact, proved by well-founded induction on the size of the forest
+  induction h : sizeL ts using Nat.strongRecOn generalizing ts with
+  | _ n ih =>
+    intro e he
+    match ts with
+    | [] => simp [eventsL] at he
+    | t :: rest =>
+      simp only [eventsL, List.mem_append] at he
+      simp only [preL, List.mem_append]
+      rcases he with he | he
+      · left
+        match t with
+        | .leaf o l k => simp [events] at he; rcases he with rfl | rfl <;> simp [evNode, pre]
+        | .node k ks =>
+          simp only [events, List.mem_cons, List.mem_append, List.mem_singleton] at he
+          rcases he with rfl | he | he
+          · simp [evNode, pre]
+          · have : sizeL ks < n := by subst h; simp [sizeL, size]; omega
+            have := ih (sizeL ks) this ks rfl e he
+            simp [pre, this]
+          · simp at he; subst he; simp [evNode, pre]
+      · right
+        have : sizeL rest < n := by subst h; simp only [sizeL]; have := size_pos t; omega
+        exact ih (sizeL rest) this rest rfl e he
+
+/-- **a subtree on the skip list has no effect, whatever it contains** (defines, undefs, includes, macro usages, nested
+    conditionals, unknown macros …): walking all its events returns the walker to exactly the state it was in — no output, no change
+    of the define table, no error — provided no proper descendant is itself on the skip list and the node's own kind triggers no
+    bookkeeping on `Leave` (true of the nodes the conditional arms put on the list) -/
+theorem walk_skip_subtree (C : Cfg) (inp : Input) (s path : Bytes) (ii sc : Bool) (rd id : Nat) (evs : List Event)
+    (t : Tree) (w : WState) (fuel : Nat) (hs : w.skip = false) (ht : w.skipNodes.contains t = true)
+    (hd : ∀ d ∈ preL t.kids, w.skipNodes.contains d = false) (hik : inertKind C.K t.baseKind = true) :
+    walk C (fuel + (events t).length) inp s path ii sc rd id (events t ++ evs) w = walk C fuel inp s path ii sc rd id evs w := by
+  have hev : events t = .enter t :: (eventsL t.kids ++ [.leave t]) := by
+    cases t with
+    | leaf o l n => simp [events, Tree.kids, eventsL]
+    | node k ks => simp [events, Tree.kids]
+  rw [hev]
+  have e1 : fuel + (Event.enter t :: (eventsL t.kids ++ [Event.leave t])).length = ((fuel + 1) + (eventsL t.kids).length) + 1 := by
+    simp [List.length_cons, List.length_append]; omega
+  rw [e1, List.cons_append, List.append_assoc]
+  conv => lhs; unfold walk
+  simp only [skipStep, ht, if_true]
+  rw [walk_skipping C inp s path ii sc rd id ([Event.leave t] ++ evs) (eventsL t.kids) (fuel + 1) { w with skip := true } rfl
+    (fun e he => hd _ (evNode_mem_preL _ e he))]
+  simp only [List.singleton_append]
+  conv => lhs; unfold walk
+  simp only [inertKind, activeBase, List.cons_append, List.nil_append, List.contains_cons, Bool.not_or, Bool.and_eq_true,
+    bne_iff_ne, ne_eq, Bool.not_eq_eq_eq_not, Bool.not_true] at hik
+  simp only [skipStep, ht, if_true, lineStep, leaveStep, hik, Bool.false_eq_true, if_false, Bool.or_self]
+  congr 1
+  cases w; simp_all
 
 end Sv
